@@ -219,7 +219,8 @@ def run(ctx, eng):
                'once everything is acknowledged depends on the value of the '
                'threshold expression and on an induction over histories')
     cm.include(ctx, eng, 'C04', {'FLOW.delta', 'ARITH.open',
-                                 'ARITH.consume', 'FLOW.init'},
+                                 'ARITH.consume', 'FLOW.init',
+                                 'FLOW.charge'},
                'window and maximum track what was advertised: a local '
                'INITIAL_WINDOW_SIZE change reaches every stream, and the '
                'window arithmetic is exact (it may go negative)')
